@@ -18,7 +18,18 @@ class Session(object):
         self.groups = []     # pagination sessions etc.: dict(kind=..., idx=[...], ...)
 
     def do(self, op, args, **meta):
-        a = self.impl.exec(op, args)
+        if getattr(self, "ro_check", False) and op not in C.WRITE_OPS and op not in (43, 44, 45):
+            before = (self.impl.file_bytes("t"), self.impl.file_bytes("l"), len(self.impl.trace))
+            a = self.impl.exec(op, args)
+            after = (self.impl.file_bytes("t"), self.impl.file_bytes("l"), len(self.impl.trace))
+            self.ro_queries = getattr(self, "ro_queries", 0) + 1
+            if before != after:
+                self.ro_violations = getattr(self, "ro_violations", [])
+                self.ro_violations.append({"index": len(self.cmds), "op": op,
+                                           "trie_changed": before[0] != after[0], "links_changed": before[1] != after[1],
+                                           "writes_issued": after[2] - before[2]})
+        else:
+            a = self.impl.exec(op, args)
         self.cmds.append((op, args))
         self.meta.append(meta)
         self.ians.append(a)
@@ -62,8 +73,24 @@ class Session(object):
                 wes.setdefault(w, []).append(lru)
         return wes
 
-    def observe(self, depth=1):
-        """a sweep of read requests over the current state. depth 0: cheap, 1: per-webentity, 2: everything"""
+    def observe(self, depth=1, focus=None):
+        """a sweep of read requests over the current state. depth 0: cheap, 1: per-webentity, 2: everything.
+        focus: set of query opcodes to issue (None = all); the random draws do not depend on it."""
+        rng = self.rng
+        real_do = self.do
+
+        def do(op, args, **meta):
+            if focus is None or op in focus or op == 36:
+                return real_do(op, args, **meta)
+            return None
+        self_do_saved = self.do
+        self.do = do
+        try:
+            self._observe(depth, focus)
+        finally:
+            self.do = self_do_saved
+
+    def _observe(self, depth, focus):
         rng = self.rng
         self.do(35, [])
         self.do(38, [])
@@ -105,9 +132,12 @@ class Session(object):
                 self.do(32, [1, w, ps], clean=True)
                 self.do(32, [0, w, ps], clean=True)
                 self.do(27, [w, ps, rng.choice([1, 2, 3, 10]), rng.choice([None, None, 0, 1, 2])], clean=True)
-                self.paginate_pages(w, ps, rng.choice([1, 1, 2, 3, 5, None]), rng.randint(0, 1) if rng.random() < 0.3 else 0, True)
-                io = rng.choice([(1, 0), (0, 1), (1, 1)])
-                self.paginate_links(w, ps, io[0], io[1], rng.choice([1, 1, 2, 3, None]), True)
+                k1, co = rng.choice([1, 1, 2, 3, 5, None]), (rng.randint(0, 1) if rng.random() < 0.3 else 0)
+                io, k2 = rng.choice([(1, 0), (0, 1), (1, 1)]), rng.choice([1, 1, 2, 3, None])
+                if focus is None or 26 in focus:
+                    self.paginate_pages(w, ps, k1, co, True)
+                if focus is None or 31 in focus:
+                    self.paginate_links(w, ps, io[0], io[1], k2, True)
             # a query with a prefix list that is not the webentity's own
             if lrus:
                 ps = [G.pick_prefix(rng, self.tr) for _ in range(rng.randint(1, 2))]
